@@ -267,6 +267,38 @@ func runC14(c *Ctx) {
 	if dels == 0 {
 		r.Add(core.Obligation{Rule: "hunt-admin", Key: "hunt-admin StopHunt deletes under the mutex", Func: core.FuncName(stop), Status: core.Violated, Detail: "StopHunt does not remove the MAC from the hunt list"})
 	}
+	// every class of target that StartHunt admits into the hunt list is removed by StopHunt (finite abstraction of
+	// the address argument: the code looks at it only through IsValid/Is4/Is6/IsLinkLocalUnicast)
+	if start != nil && stop != nil {
+		isAdd := func(i ssa.Instruction) bool {
+			ci, ok := i.(ssa.CallInstruction)
+			return ok && strings.HasSuffix(core.CalleeName(ci), "AddrList).Add")
+		}
+		isDel := func(i ssa.Instruction) bool {
+			ci, ok := i.(ssa.CallInstruction)
+			return ok && strings.HasSuffix(core.CalleeName(ci), "AddrList).Del")
+		}
+		admitted := 0
+		for _, cl := range addrClasses {
+			adds, _ := classReach(start, "(addr).IP", cl, isAdd)
+			if !adds {
+				continue
+			}
+			admitted++
+			_, delAll := classReach(stop, "(addr).IP", cl, isDel)
+			st := core.Proved
+			det := ""
+			if !delAll {
+				st = core.Violated
+				det = "StartHunt admits a target with " + cl.Name + " into the hunt list, but StopHunt returns without removing it for that class of address: the spoof loop for such a target can never be stopped"
+			}
+			r.Add(core.Obligation{Rule: "hunt-admin", Key: "hunt-admin StopHunt removes what StartHunt admits: " + cl.Name, Func: core.FuncName(stop), Pos: c.P.Pos(stop.Pos()), Status: st,
+				Basis: "address class admitted by StartHunt and removed by StopHunt on every path", Detail: det})
+		}
+		if admitted == 0 {
+			r.Add(core.Obligation{Rule: "hunt-admin", Key: "hunt-admin StartHunt admits some class", Func: core.FuncName(start), Status: core.Violated, Detail: "no address class reaches huntList.Add in StartHunt"})
+		}
+	}
 
 	// ---- Router field provenance ----
 	want := map[string]string{
